@@ -8,7 +8,7 @@ from hypothesis import strategies as st
 
 from . import gens, notations, refml as R
 
-CFG = gens.Cfg(ids=(0, 1, 2), nsyms=3, sym_names=['a', 'b', 'c'])
+CFG = gens.Cfg(ids=(0, 1, 2), nsyms=3, sym_names=['a', 'b', 'c'], holes=True)
 
 
 def pool():
